@@ -129,3 +129,30 @@ package data
 //@   ensures [C02.idivmod] len(r) == len(denominators) && forall(k, 0, len(denominators), r[k] == tmod(tdiv(numerator, denominators[k]), modulator[k]))
 //@   loop 0 invariant -1 <= rangeindex && rangeindex < len(denominators) && len(res) == len(denominators)
 //@   loop 0 invariant forall(k, 0, rangeindex + 1, res[k] == tmod(tdiv(numerator, denominators[k]), modulator[k]))
+
+// =====================================================================
+// L1: the strided-view header Nd{T}Common (C01, C02)
+// address of index vector v:  Start + sum_k v[k]*OffsetStep[k]
+// =====================================================================
+
+//@ types {T} = ArrayType, Float64, Float32, Int32, Uint32, Int64, Uint64, Int, Uint
+
+//@ func (*Nd{T}Common).Index(nd, loc) returns (r)
+//@   safety C01
+//@   requires len(loc) <= len(nd.OffsetStep)
+//@   assigns nothing
+//@   ensures [C01.index-affine] r == nd.Start + idot(loc, nd.OffsetStep, len(loc))
+//@   loop 0 invariant 0 <= i && i <= len(loc) && result == nd.Start + idot(loc, nd.OffsetStep, i)
+
+//@ func (*Nd{T}Common).SliceInto(nd, dest, loc, dims, step)
+//@   safety C01
+//@   requires nd != dest
+//@   requires len(nd.Offset) == len(nd.OffsetStep) && len(nd.Step) == len(nd.OffsetStep) && len(loc) <= len(nd.OffsetStep)
+//@   requires step == nil || len(step) >= len(nd.OffsetStep)
+//@   requires forall(k, 0, len(nd.OffsetStep), nd.OffsetStep[k] == nd.Offset[k]*nd.Step[k])
+//@   assigns dest.OriginalDims, dest.Dims, dest.Start, dest.Offset, dest.Step, dest.OffsetStep
+//@   ensures [C01.compose-start] dest.Start == nd.Start + idot(loc, nd.OffsetStep, len(loc))
+//@   ensures [C01.compose-stride] len(dest.OffsetStep) == len(nd.OffsetStep) && forall(k, 0, len(nd.OffsetStep), dest.OffsetStep[k] == nd.OffsetStep[k] * ite(step == nil, 1, step[k]))
+//@   ensures [C01.compose-header] dest.Dims == dims && dest.OriginalDims == nd.OriginalDims && len(dest.Offset) == len(nd.Offset) && len(dest.Step) == len(nd.Step)
+//@   ensures [C01.compose-wf] forall(k, 0, len(nd.OffsetStep), dest.Offset[k] == nd.Offset[k] && dest.Step[k] == nd.Step[k] * ite(step == nil, 1, step[k]) && dest.OffsetStep[k] == dest.Offset[k]*dest.Step[k])
+//@   ensures [C01.parent-untouched] nd.Start == old(nd.Start) && nd.Dims == old(nd.Dims) && nd.OffsetStep == old(nd.OffsetStep) && forall(k, 0, len(nd.OffsetStep), nd.OffsetStep[k] == old(nd.OffsetStep[k]))
